@@ -1631,6 +1631,14 @@ class Interp:
             fields["execution_time"] = Form.num(0)
             if "dtype" in vals:
                 fields["__dtype__"] = vals["dtype"]
+                dt = vals["dtype"]
+                dta = dt.single_atom() if isinstance(dt, Form) else None
+                promoting = dta is not None and dta[0] == "fn" and dta[1] == "result_type"
+                if not promoting and not (isinstance(dt, Const) and dt.v is None):
+                    # an explicit dtype casts the samples (possibly lossy): keep the cast visible in the value form
+                    for k in ("signal", "noise"):
+                        if isinstance(fields.get(k), Form):
+                            fields[k] = mk_fn("astype", [fields[k], as_value(dt)])
             return ObjV(cls, fields, n)
         if cls == "binary_sequence":
             fields["data"] = args[0] if args else kwargs.get("data", NONE)
